@@ -6,6 +6,8 @@ d = dict(id=sid, property=prop, breaks=summary, needs_to_manifest=needs,
          origin="independent sub-agent given only the property text and a scratch worktree",
          confirmed=dict(where="/tmp/seed/base (scratch worktree, own build)", build="ok", baseline_suite="164/164 with the change",
                         demo_with_change="non-zero exit", demo_without_change="exit 0", how="tool/confirm_seed.sh"),
-         detected_by=[c for c in caught.split(",") if c], detected=bool(caught))
+         detected_by=[c for c in caught.replace(" ", ",").split(",") if c], detected=bool(caught), as_delivered=os.environ.get("SEED_AS_DELIVERED") == "1")
+if not d["as_delivered"] and "as delivered" not in summary.lower():
+    d["breaks"] = summary.rstrip(".") + ". Missed as delivered; caught after adding / extending " + ", ".join(d["detected_by"])
 json.dump(d, open(os.path.join("/verif/seeded", sid, "meta.json"), "w"), indent=1)
 print("meta written", sid)
